@@ -31,6 +31,14 @@ def gen_lp(r):
         sense = str(r.choice(['le', 'ge', 'eq'], p=[0.45, 0.4, 0.15]))
         b = A @ x0 + (r.choice([0., 1., 2.], rows) if sense == 'le' else (-r.choice([0., 1., 2.], rows) if sense == 'ge' else 0.0))
         d['blocks'].append({'A': A.tolist(), 'b': b.tolist(), 'sense': sense})
+    if r.random() < 0.5:
+        # an equality written with a bare slice of the variable on the left: x[idx] == A2 x + b2  (orientation as written:
+        # (E_idx - A2) x == b2)
+        k_ = int(r.integers(1, min(n, 2) + 1)); idx = sorted(int(v) for v in r.choice(n, k_, replace=False))
+        A2 = r.choice([-1., 0., 1., 2.], (k_, n))
+        E = np.zeros((k_, n)); E[np.arange(k_), idx] = 1.0
+        b2 = (E - A2) @ x0
+        d['blocks'].append({'A': (E - A2).tolist(), 'b': b2.tolist(), 'sense': 'eq', 'var_left': {'idx': idx, 'A2': A2.tolist(), 'b2': b2.tolist()}})
     # bounds: every entry gets exactly one lower and one upper bound, through differently shaped slices
     perm = [int(v) for v in r.permutation(n)]
     k = int(r.integers(1, n))
@@ -61,7 +69,11 @@ def build(d):
     (m.max if d['max'] else m.min)(c @ x)
     for blk in d['blocks']:
         A = np.array(blk['A']); b = np.array(blk['b'])
-        con = (A @ x <= b) if blk['sense'] == 'le' else ((A @ x >= b) if blk['sense'] == 'ge' else (A @ x == b))
+        if blk.get('var_left'):
+            vl = blk['var_left']
+            con = (x[vl['idx']] == np.array(vl['A2']) @ x + np.array(vl['b2']))
+        else:
+            con = (A @ x <= b) if blk['sense'] == 'le' else ((A @ x >= b) if blk['sense'] == 'ge' else (A @ x == b))
         handles.append(('lin', blk, m.st(con)))
     for bd in d['bounds']:
         sel = x[bd['idx']]
